@@ -19,7 +19,8 @@ def parse_data(content, type_code):
 
     raw = np.frombuffer(content, dtype)
     if type_code == "C*8":
-        return raw["real"] + 1j * raw["imag"]
+        # reinterpret the (real, imag) pairs without arithmetic to keep them bit-exact
+        return raw.view(">c8").astype("complex64")
     return raw
 
 
